@@ -18,7 +18,7 @@ func init() { register("C06", c06) }
 func c06(e *Env) {
 	c := e.C
 	c.Level = "other"
-	c.Explanation = "Decides the structural part of 'scores lie on the tenth grid and severity is the band of the score': (1) return discipline - every return of the six Score methods and the two score helpers is the constant 0, a call of a rounding helper that produces tenths, or a call of a lower-level Score/score (induction over embedding depth); (2) rounding-helper shape - every return of roundUp / roundTo1Decimal is integer/10, or integer/10^k under the guard int(n)%10^(k-1)==0, with the integer built from math.Round/Floor/Ceil and integer constants only; (3) upper cap - the operand of the outer round-up in v3 is min(.,10) or a product of a capped score with weights in [0,1]; (4) each Severity() is severity(own-level Score()); (5) the two severity() functions use their argument only in comparisons with constants on the tenth grid, so they are decided on all 101 grid points (plus representatives below 0 and above 10) against the band tables; (6) the report score fields are strconv.FormatFloat(Score(), 'f', -1, 64)."
+	c.Explanation = "Decides the structural part of 'scores lie on the tenth grid and severity is the band of the score': (1) return discipline - every return of the six Score methods and the two score helpers is the constant 0, a call of a rounding helper that produces tenths, or a call of a lower-level Score/score (induction over embedding depth); (2) rounding-helper shape - every return of roundUp / roundTo1Decimal is integer/10, or integer/10^k under the guard int(n)%10^(k-1)==0, with the integer built from math.Round/Floor/Ceil and integer constants only; (3) upper cap - the operand of the outer round-up in v3 is min(.,10) or a product of a capped score with weights in [0,1]; (4) each Severity() is severity(own-level Score()); (5) the two severity() functions use their argument only in comparisons with constants on the tenth grid, so they are decided on all 101 grid points (plus representatives below 0 and above 10) against the band tables; (6) the report score fields are strconv.FormatFloat(Score(), 'f', -1, 64); (7) the Score terms are the specification's equations (score-term, as in C01-C05 without the v2 rounding-point discipline): the range [0,10] is a property of those equations."
 	c.Trusted = []string{"go/types + go/ssa", "math.Round/Floor/Ceil return integral values; x/10 for an integer x is the float64 nearest to the decimal, which FormatFloat(-1) prints with at most one digit", "band tables in checker/internal/spec"}
 	c.NotDecided = []string{"numeric upper/lower bounds of the v2 equations (that they stay within [0,10])", "that the value handed to a rounding helper is finite", "the v2 environmental negative corner (excluded by the property)"}
 	for _, v := range []*spec.Version{&spec.V3, &spec.V2} {
@@ -34,6 +34,22 @@ func c06(e *Env) {
 			if v.Name == "v3" {
 				e.upperCap(k)
 			}
+		})
+	}
+	// that the value handed to the final rounding lies in [0,10] is a property of the equation: the specification's
+	// equations are bounded (C01-C05's numeric side), so the terms of the Score functions must be those equations
+	// (without C04/C05's rounding-point discipline, which does not move a score off the grid or out of the range)
+	if k3 := e.newScoreKit(&spec.V3, "score-term"); k3 != nil {
+		e.guardPanics("score-term", "v3 references", func() {
+			e.termV3Base(k3)
+			e.termV3Temporal(k3)
+			e.termV3Env(k3)
+		})
+	}
+	if k2 := e.newScoreKit(&spec.V2, "score-term"); k2 != nil {
+		e.guardPanics("score-term", "v2 references", func() {
+			e.termV2BaseTemporal(k2, false)
+			e.termV2Env(k2, false)
 		})
 	}
 	e.reportScoreRendering("score-rendering")
